@@ -1,6 +1,6 @@
 (** Property C16 — the theorems the check counts as obligations.  Nothing but
     statements closed by [exact] and [Print Assumptions]. *)
-From HS Require Import Base.Prelude C16.Model C16.Lists C16.Policies C16.Store C16.Races.
+From HS Require Import Base.Prelude C16.Model C16.Lists C16.Policies C16.Store C16.Races C16.Seq.
 Local Open Scope Z_scope.
 
 (** Every one of the nine eviction policies keeps a duplicate-free tracked-key
@@ -42,3 +42,38 @@ Print Assumptions c16_writeback_flush_race_refuted.
 Theorem c16_writeback_fill_race_refuted : ~ dirty_preserved_statement.
 Proof. exact fill_race_loses_writeback. Qed.
 Print Assumptions c16_writeback_fill_race_refuted.
+
+(** PARTIAL (write-back clause): every segment of every interleaving keeps each
+    dirty value (still dirty with that value, or written to the backing store)
+    unless it is an explicit put / delete / invalidate of that key, the fill of
+    a miss of that key, or a flush write that captured another value.  The
+    eviction inside _cache_put is covered (fix 16758b8 writes the victim back). *)
+Theorem c16_writeback_preserved_partial : forall kind c b0 ins i k v, 1 <= cap c ->
+  let P := pol_of kind in
+  let y := srun P c (sinit P b0) ins in
+  In k (dirty (st y)) -> aget k (cache (st y)) = Some v ->
+  (match i_act i with
+   | IStart _ o => touches k o = false
+   | IResume id => match pfind id (pending y) with
+                   | Some kc => cont_touches k v kc = false
+                   | None => True
+                   end
+   end) ->
+  let y' := fst (sstep P c y i) in
+  (In k (dirty (st y')) /\ aget k (cache (st y')) = Some v) \/ aget k (back (st y')) = Some v.
+Proof. exact writeback_preserved_partial. Qed.
+Print Assumptions c16_writeback_preserved_partial.
+
+(** PARTIAL (read-after-write clause): for non-overlapping operations every get
+    returns the last written value (None after delete): all policies, both write
+    modes (write-back: without invalidations), any capacity, any oracle inputs. *)
+Theorem c16_sequential_read_after_write_partial : forall kind c b0 l, 1 <= cap c -> NoDup (akeys b0) ->
+  Forall (fun x => op_safe c (snd x)) l ->
+  reads_ok (fun k => aget k b0) l (snd (run_seq (pol_of kind) c (cinit (pol_of kind) b0) l)).
+Proof. exact sequential_read_after_write. Qed.
+Print Assumptions c16_sequential_read_after_write_partial.
+
+(** REFUTED (known finding C16-invalidate-dirty). *)
+Theorem c16_invalidate_dirty_refuted : ~ wb_sequential_statement.
+Proof. exact invalidate_dirty_refuted. Qed.
+Print Assumptions c16_invalidate_dirty_refuted.
